@@ -1,18 +1,19 @@
 #!/bin/bash
-# tools/verify_mutant.sh <ID> <mN>   — confirm a staged mutant in the scratch worktree /tmp/mut/verify
+# tools/verify_mutant.sh <ID> <mN>   — confirm a seeded change (/verif/seeded/<ID>-<mN>) in a scratch worktree /tmp/mut/verify
+# (create it first: git -C /repo worktree add --detach /tmp/mut/verify HEAD; remove it afterwards)
 # (1) demo fails with the mutant (2) full suite passes with the mutant (3) demo passes without it
 set -u
-ID="$1"; M="$2"; S=/verif/seeded_staging/$ID; W=/tmp/mut/verify
+ID="$1"; M="$2"; S=/verif/seeded/$ID-$M; W=/tmp/mut/verify
 cd $W || exit 9
 git checkout -q -- . ; git clean -fdq tests/ 2>/dev/null
-git apply "$S/$M.diff" || { echo "$ID/$M APPLY-FAILED"; exit 8; }
-cp "$S/${M}_demo.rs" tests/demo_${M}.rs
+git apply "$S/patch.diff" || { echo "$ID/$M APPLY-FAILED"; exit 8; }
+cp "$S/demo.rs" tests/demo_${M}.rs
 if grep -q "mod helpers" tests/demo_${M}.rs; then :; fi
 cargo test --offline --test demo_${M} >/tmp/mut/verify_$ID$M.demo_mut.log 2>&1; DM=$?
 rm tests/demo_${M}.rs
 cargo test --workspace --no-fail-fast --offline >/tmp/mut/verify_$ID$M.suite.log 2>&1; SU=$?
 git checkout -q -- .
-cp "$S/${M}_demo.rs" tests/demo_${M}.rs
+cp "$S/demo.rs" tests/demo_${M}.rs
 cargo test --offline --test demo_${M} >/tmp/mut/verify_$ID$M.demo_clean.log 2>&1; DC=$?
 rm tests/demo_${M}.rs
 echo "$ID/$M demo_with_mutant=$DM (want !=0) suite_with_mutant=$SU (want 0) demo_clean=$DC (want 0)"
